@@ -708,6 +708,8 @@ def search(hints, tier, rng):
 
 def replay(w):
     ch = w.get("check")
+    if ch == "uniform_edge":
+        return float(D.Uniform(w["minval"], w["maxval"]).log_prob(w["maxval"])) == -math.inf
     if ch == "logpdf":
         shapes = [tuple(s) for s in w["shapes"]]
         params = [np.asarray(p, float).reshape(s) for p, s in zip(w["params"], shapes)]
